@@ -36,6 +36,39 @@ def main():
                 if only and sid not in only:
                     continue
                 demo = os.path.join(d, 'demo_%s.rs' % x)
+                if not os.path.exists(demo) and os.path.exists(os.path.join(d, 'demo_%s.sh' % x)):
+                    # shell demo: takes the rg binary as $1
+                    demo = os.path.join(d, 'demo_%s.sh' % x)
+                    meta = {'id': sid, 'property': prop, 'patch': 'patch.diff', 'demo': os.path.basename(demo),
+                            'demo_cmd': 'cargo build --offline && sh %s target/debug/rg' % os.path.basename(demo)}
+                    sh('git checkout -q -- . && git clean -fdq crates')
+                    rcb, outb = sh('cargo build --offline -j 8')
+                    rc0, out0 = sh('sh %s /tmp/seedw_target/debug/rg' % demo)
+                    meta['demo_without_patch'] = {'rc': rc0}
+                    rca, outa = sh('git apply %s' % os.path.join(d, pf))
+                    meta['applies'] = rca == 0
+                    if rca == 0:
+                        rcb, outb = sh('cargo build --offline -j 8')
+                        rc1, out1 = sh('sh %s /tmp/seedw_target/debug/rg' % demo)
+                        meta['demo_with_patch'] = {'rc': rc1, 'tail': out1[-300:]}
+                        rc2, out2 = sh('cargo test --workspace --no-fail-fast --offline -j 8')
+                        p2, f2 = summary(out2)
+                        meta['suite_with_patch'] = {'rc': rc2, 'passed': p2, 'failed': f2}
+                        ok = rc0 == 0 and rc1 != 0 and rc2 == 0 and f2 == 0
+                        meta['confirmed'] = ok
+                        print(sid, 'CONFIRMED' if ok else 'NOT CONFIRMED', meta['demo_without_patch'], {'rc': rc1}, meta['suite_with_patch'])
+                    od = os.path.join(OUT, sid)
+                    os.makedirs(od, exist_ok=True)
+                    shutil.copy(os.path.join(d, pf), os.path.join(od, 'patch.diff'))
+                    shutil.copy(demo, os.path.join(od, os.path.basename(demo)))
+                    if os.path.exists(os.path.join(d, 'notes.md')):
+                        shutil.copy(os.path.join(d, 'notes.md'), os.path.join(od, 'notes_from_author.md'))
+                    mp = os.path.join(od, 'meta.json')
+                    old = json.load(open(mp)) if os.path.exists(mp) else {}
+                    old.update(meta)
+                    json.dump(old, open(mp, 'w'), indent=1)
+                    sys.stdout.flush()
+                    continue
                 if not os.path.exists(demo):
                     print(sid, 'no demo'); continue
                 head = open(demo).read(3000)
